@@ -40,7 +40,7 @@ CLAIMED = {
    ref="6 C08"),
  "C09": dict(
    text="For every byte string of length 0..5 (quick) / 0..9 (thorough) and each of 14 stream decoders (fixed-width fields, VarInt/VarLong, Position, UUID, String, ByteArray, BitSet, FixedBitSet, Option, uncompressed frame): the result under 1/2/3-byte chunks and under EVERY division of the stream into short reads (each Read call delivers an arbitrary count) equals the contiguous read (value, count, error-ness, residual); a reader failing or ending at every offset before completion yields an error; a writer failing after k bytes makes WriteTo/Pack (plain and compressed) fail for every k. NBT: RawMessage, StringifiedMessage and dynbt.Value decoding of every byte string of 0..6/8 bytes, typed decoding of the catalogue document and of root values of 8 kinds into typed and `any` targets, under chunks of 1/2/3/5 bytes and under one short read placed at any multi-byte read; reader failure/EOF at every offset; typed Encode, RawMessage, StringifiedMessage.MarshalNBT, dynbt MarshalNBT and root-value Encode against a writer that fails at any offset, permanently or once. Compressed frames and RCON ReadPacket under the same schedules, truncation/failure at every offset, WritePacket with a failing writer.",
-   note="readers returning (0,nil) or (n>0,err) are outside; fully arbitrary schedules only for the short packet fields (longer streams: fixed chunks plus one arbitrarily placed short read); binary.Read modelled with io.ReadFull semantics; zlib by the model codec; document sizes as in the harnesses (catalogue struct, GenNBT budget 2..3).",
+   note="readers returning (0,nil), or data together with an error other than io.EOF at the end of the stream, are outside (data together with io.EOF on the last read IS a schedule); fully arbitrary schedules only for the short packet fields (longer streams: fixed chunks plus one arbitrarily placed short read); binary.Read modelled with io.ReadFull semantics; zlib by the model codec; document sizes as in the harnesses (catalogue struct, GenNBT budget 2..3).",
    ref="6 C09"),
  "C11": dict(
    text="For every b=1..32 and n in {1,vpl-1,vpl,vpl+1,2vpl+1} (thorough also 64,130): one inductive step from an arbitrary state (arbitrary raw longs incl. padding bits) with symbolic i, j, v: Get/Set/Swap behave as an array, other indices untouched, Raw() follows the >=1.16 packing; out-of-range index/value panics leave the state unchanged; b=0; size rules, constructor refusal and Fix; wire round trip into fresh/used storage.",
